@@ -2723,23 +2723,42 @@ def c05(tier):
     rep.notes["cases_by_class"] = {}
     for c in cases:
         rep.notes["cases_by_class"][c["cls"]] = rep.notes["cases_by_class"].get(c["cls"], 0) + 1
-    progs = os.path.join(wd, "robust-cases.ndjson")
-    trace = os.path.join(wd, "robust-trace.ndjson")
-    vlib.write_ndjson(progs, lines + cases)
-    vlib.run_harness(["pexec", progs, trace, "90"], timeout=7200)
-    # the trace is segmented by the `sc` field (2000 cases per segment); TLC needs a Reset in front of each
-    evs = vlib.read_ndjson(trace)
-    if len(evs) != len(cases):
-        raise ToolTrouble("pexec produced %d events for %d cases" % (len(evs), len(cases)))
-    out, last = [], None
-    for e in evs:
-        if e["sc"] != last:
-            out.append({"ev": "Reset", "sc": e["sc"]})
-            last = e["sc"]
-        out.append(e)
-    vlib.write_ndjson(trace, out)
+    # the cases are sharded over supervised worker processes; every shard's trace is validated by its own TLC run
+    # (segments of 2000 cases inside a shard, so one rejection never hides the rest)
+    import concurrent.futures
+    shard_size = min(60000, max(4000, len(cases) // 12 + 1))
+    shards = [cases[i:i + shard_size] for i in range(0, len(cases), shard_size)]
+
+    def run_shard(k):
+        progs = os.path.join(wd, "robust-cases-%03d.ndjson" % k)
+        trace = os.path.join(wd, "robust-trace-%03d.ndjson" % k)
+        vlib.write_ndjson(progs, lines + shards[k])
+        vlib.run_harness(["pexec", progs, trace, "90"], timeout=7200)
+        ev = vlib.read_ndjson(trace)
+        if len(ev) != len(shards[k]):
+            raise ToolTrouble("pexec produced %d events for %d cases" % (len(ev), len(shards[k])))
+        out, last = [], None
+        for e in ev:
+            if e["sc"] != last:
+                out.append({"ev": "Reset", "sc": e["sc"]})
+                last = e["sc"]
+            out.append(e)
+        vlib.write_ndjson(trace, out)
+        os.unlink(progs)
+        return trace, ev
+    with concurrent.futures.ThreadPoolExecutor(max_workers=min(12, vlib.NCPU)) as pool:
+        done = list(pool.map(run_shard, range(len(shards))))
+    evs = [e for _, ev in done for e in ev]
     byid = {c["id"]: c for c in cases}
-    res = vlib.validate_segments("Trace_Robust.tla", "Trace_Robust.cfg", trace, wd, tag="robust", max_rejections=6)
+    res = {"segments": 0, "accepted_segments": 0, "rejections": [], "states": 0, "events": 0, "rounds": 0}
+    for k, (trace, _) in enumerate(done):
+        r1 = vlib.validate_segments("Trace_Robust.tla", "Trace_Robust.cfg", trace, wd, tag="robust%03d" % k, max_rejections=6)
+        for key in ("segments", "states", "events", "rounds"):
+            res[key] += r1[key]
+        res["rejections"] += r1["rejections"]
+        if len(res["rejections"]) >= 6:
+            break
+    trace = done[0][0]
     # a rejected segment names one input: the replay holds that case (seed + mutation), not 2000
     for rj in res["rejections"]:
         e = rj["event"] if isinstance(rj["event"], dict) else {}
